@@ -33,3 +33,13 @@ def deepcopy_tokens(ex, st, args):
     except Exception: pass
     st.heap.alloc = hi
     ex.set_list(st, l, n, arr, src.ty); return ex.list_sv(st, l, src.ty)
+
+
+@builtin('copy.deepcopy#node', 'A-copy: copy.deepcopy of a free-standing node yields a fresh node of the same class with the same value (val); checked by the clone/_clone contracts of L1/L4 and the deep-copy driver')
+def deepcopy_node(ex, st, args):
+    src = args[0]
+    if src.ty.kind == 'list': return deepcopy_tokens(ex, st, args)
+    r = ex.alloc(st, 'copy')
+    val = ex.spec.ufuns['val'][0]
+    st.defs.append(ex.typ(r) == ex.typ(src.t)); st.defs.append(val(r) == val(src.t))
+    return E.SV(r, src.ty)
